@@ -521,6 +521,23 @@ def attach_monitors(res, fn, pre, lay, it):
         raise AnalysisBroken('%s calls functions without a summary: %s' % (fn, sorted(it.unknown_calls)))
 
 
+def interpret(res, it, f, st, args, fn, pre, lay):
+    """run the operation on the layout; a free-list walk that the layout does not decide (cycle, link into
+    unmodelled memory) is a verdict against the operation, not an analysis failure: on a heap satisfying the
+    invariant every walk visits the explicit chunks only"""
+    try:
+        rets = it.run_function(f, st, args)
+    except AnalysisBroken as e:
+        if 'not decided by the configuration' not in str(e) and 'path explosion' not in str(e):
+            raise
+        res.add(fn, pre + 'freelist-walk-terminates', lay.name, False,
+                'the free-list walk does not terminate on the explicit chunks of this layout (cyclic or wild '
+                'link after an earlier step of the operation): %s' % e)
+        return None
+    res.add(fn, pre + 'freelist-walk-terminates', lay.name, True)
+    return rets
+
+
 def run_malloc(res, mod, pattern, virgin=False, fn='malloc', pre='', via_realloc=False):
     lay = Layout(mod, pattern, virgin)
     it = HeapInterp(mod, lay.arena.id)
@@ -529,8 +546,10 @@ def run_malloc(res, mod, pattern, virgin=False, fn='malloc', pre='', via_realloc
     f = mod.fn('realloc' if via_realloc else 'malloc')
     if f is None or f.decl:
         raise AnalysisBroken('heap function %s not found (anchor vanished)' % fn)
-    rets = it.run_function(f, st, ([NULL] if via_realloc else []) + [ln])
+    rets = interpret(res, it, f, st, ([NULL] if via_realloc else []) + [ln], fn, pre, lay)
     res.layouts += 1
+    if rets is None:
+        return
     if not rets:
         res.add(fn, pre + 'returns', lay.name, False, 'no feasible return')
     for (T, rv) in rets:
@@ -564,8 +583,10 @@ def run_free(res, mod, pattern):
     f = mod.fn('free')
     if f is None or f.decl:
         raise AnalysisBroken('heap function free not found (anchor vanished)')
-    rets = it.run_function(f, lay.st, [lay.xptr()])
+    rets = interpret(res, it, f, lay.st, [lay.xptr()], 'free', '', lay)
     res.layouts += 1
+    if rets is None:
+        return
     L = lay.name
     want, wbrk = model_free(lay)
     if not rets:
@@ -599,8 +620,10 @@ def run_free(res, mod, pattern):
 def run_free_null(res, mod, pattern):
     lay = Layout(mod, pattern)
     it = HeapInterp(mod, lay.arena.id)
-    rets = it.run_function(mod.fn('free'), lay.st, [NULL])
+    rets = interpret(res, it, mod.fn('free'), lay.st, [NULL], 'free', 'free(NULL):', lay)
     res.layouts += 1
+    if rets is None:
+        return
     for (T, rv) in rets:
         u = unchanged(T, lay)
         res.add('free', 'free(NULL)-is-a-no-op', lay.name, u is None, u)
@@ -617,8 +640,10 @@ def run_realloc(res, mod, pattern):
     f = mod.fn('realloc')
     if f is None or f.decl:
         raise AnalysisBroken('heap function realloc not found (anchor vanished)')
-    rets = it.run_function(f, st, [lay.xptr(), ln])
+    rets = interpret(res, it, f, st, [lay.xptr(), ln], 'realloc', '', lay)
     res.layouts += 1
+    if rets is None:
+        return
     L = lay.name
     x = lay.x
     arena = lay.arena.id
